@@ -24,7 +24,7 @@ na={
 exec(open('/verif/tools/na.py').read())
 m={"version":1,
  "setup_cmd":"cd /verif/govc && GOFLAGS=-mod=vendor GOPROXY=off GOSUMDB=off GOTOOLCHAIN=local go build -o /verif/bin/govc .",
- "hooks":{"guard":"verif","enable":"go build/test -tags verif (adds */zz_contracts_verif.go, */zz_bounded_verif.go, regex/zz_escaped_verif.go: //@ contract comments, pure ghost spec/lemma functions and executable contract predicates only; all carry //go:build verif; no executable line of crs-toolchain depends on them)","baseline_off_cmd":"cd /repo && go test -mod=mod -json -vet=off -count=1 -timeout 25m ./...","source_commits":hook_commits,"add_only":True},
+ "hooks":{"guard":"verif","enable":"go build/test -tags verif (adds zz_contracts_verif.go in package main and in each package directory, */zz_bounded_verif.go, regex/zz_escaped_verif.go: //@ contract comments, pure ghost spec/lemma functions and executable contract predicates only; all carry //go:build verif; no executable line of crs-toolchain depends on them)","baseline_off_cmd":"cd /repo && go test -mod=mod -json -vet=off -count=1 -timeout 25m ./...","source_commits":hook_commits,"add_only":True},
  "engines":[{"name":"govc","path":"/verif/govc","serves_properties":sorted(checks),"kind_free_text":"home-made verification-condition generator for Go (typed-AST symbolic execution, loop invariants, modular contracts, ghost lemmas by recursion) discharging obligations with z3 4.8.12 / z3 5.1.0 / cvc5 1.0.3; regular-language obligations compiled from the pattern literals in the source"}],
  "checks":[checks[i] for i in ids if i in checks],
  "not_applicable":[{"property_id":i,"reason":na.get(i,"check not built yet (work in progress; see DESIGN.md section 7)")} for i in ids if i not in checks],
